@@ -128,3 +128,70 @@ def c18(run, tier):
                 run.sample({"head": show(a["t"]), "goal": show(b["t"]), "unifiable": True, "could_match": o["r"]}, cap=5)
     run.exhaustive = True
     run.extra["pairs_where_real_filter_differs_from_as_is_model"] = deviations
+
+def canon_unknowns(args):
+    """rename every unknown (fresh variable of the specification / bound variable of the implementation) by order of first occurrence"""
+    names = {}
+    def go(t):
+        k = t["k"]
+        if k in ("FRESH", "lFRESH", "cFRESH"):
+            key = ("f", k, t["n"]); sort = {"FRESH": "ty", "lFRESH": "lt", "cFRESH": "const"}[k]
+        elif k in ("bound", "lbound", "cbound"):
+            key = ("b", k, t["m"]); sort = {"bound": "ty", "lbound": "lt", "cbound": "const"}[k]
+        else:
+            return {"k": k, "n": t["n"], "m": t["m"], "a": [go(x) for x in t["a"]]}
+        if key not in names: names[key] = len(names)
+        return {"k": "unknown", "sort": sort, "i": names[key]}
+    return [go(x) for x in args]
+
+@prop("C17")
+def c17(run, tier):
+    run.rule = ("TLC takes every pair (current guidance, new answer) of 17 712 pairs of canonical two-argument substitutions (types of every constructor, "
+                "repeated unknowns, lifetimes and constants at top level and nested) and checks MergeGeneralizes (both are instances of the merge) and "
+                "MayInvalidateSoundUnlessRepeated on Guidance.tla; all pairs of 8 abstract solutions for CombineSymmetric / CombineNoStronger; the real "
+                "merge_into_guidance must return the specified anti-unifier (modulo naming of unknowns), the real may_invalidate must say yes whenever an "
+                "instance of the new answer is not an instance of the guidance, the real Solution::combine must return the specified result in both "
+                "orders; non-trivial = the two substitutions differ; distinct = pair")
+    run.assumptions = ["substitutions of length 2 over the argument universe of GuidanceMC.tla; instances of the pending answer are taken over 3 closed types",
+                       "trusted: TLC, harness/src/terms.rs + termops.rs, Instance (matching) of Guidance.tla"]
+    cfg = 'SPECIFICATION Spec\nCONSTANTS\n  Mode = "%s"\nINVARIANTS MergeGeneralizes MayInvalidateSoundUnlessRepeated CombineSymmetric CombineNoStronger Replay\nCHECK_DEADLOCK FALSE\n'
+    r = run_tlc_mc(run, "GuidanceMC", cfg % "merge", "C17m", workers=10, timeout=1800)
+    if r is None: return
+    recs = gc.parse_replay(r)
+    obs = run_items([{"op": "merge", "cur": x["cur"], "new": x["new"]} for x in recs], per=1500)
+    dev = 0
+    for rec, o in zip(recs, obs):
+        run.case([rec["cur"], rec["new"]], nontrivial=rec["cur"] != rec["new"])
+        rp = {"cur": rec["cur"], "new": rec["new"], "expected": {"merged": rec["merged"], "must_invalidate": rec["must"]}, "observed": o}
+        sh = {"cur": [show(x) for x in rec["cur"]], "new": [show(x) for x in rec["new"]]}
+        if "merged" not in o:
+            run.violation(dict(sh, what="abort-or-panic", detail=json.dumps(o)[:100]), rp); continue
+        bad = False
+        if canon_unknowns(o["merged"]) != canon_unknowns(rec["merged"]):
+            bad |= run.violation(dict(sh, what="merged guidance differs from the specified anti-unifier"), rp)
+        if rec["must"] and not o["may_invalidate"]:
+            if rec["repeated"] and not rec["alg"]:
+                bad |= run.violation({"deviation": "MI_RepeatedGuidanceVar", "what": "may_invalidate says no although a future answer need not be an instance of the guidance"}, rp)
+            else:
+                bad |= run.violation(dict(sh, what="may_invalidate says no although a future answer need not be an instance of the guidance"), rp)
+        if o["may_invalidate"] != rec["alg"]: dev += 1
+        if not bad: run.traces += 1
+        if rec["cur"] != rec["new"] and rec["cur"][0]["k"] == "adt": run.sample(dict(sh, merged=[show(x) for x in o["merged"]], may_invalidate=o["may_invalidate"]), cap=5)
+    run.extra["pairs_where_real_check_differs_from_as_is_model"] = dev
+    r = run_tlc_mc(run, "GuidanceMC", cfg % "combine", "C17c", workers=4, timeout=600)
+    if r is None: return
+    recs = gc.parse_replay(r)
+    obs = run_items([{"op": "combine", "x": x["cur"], "y": x["new"]} for x in recs])
+    for rec, o in zip(recs, obs):
+        run.case(["combine", rec["cur"], rec["new"]], nontrivial=rec["cur"] != rec["new"])
+        rp = {"x": rec["cur"], "y": rec["new"], "expected": rec["combined"], "observed": o}
+        if "kind" not in o:
+            run.violation({"what": "abort-or-panic", "detail": json.dumps(o)[:100]}, rp); continue
+        want = rec["combined"]
+        ok = o["kind"] == want["kind"] and o["sym"]
+        if want["s"] != 0: ok = ok and ((want["s"] == rec["cur"]["s"] and o["subst_of_x"]) or (want["s"] == rec["new"]["s"] and o["subst_of_y"]))
+        if not ok:
+            run.violation({"what": "Solution::combine differs from the specification", "x": [rec["cur"]["kind"], rec["cur"]["s"]], "y": [rec["new"]["kind"], rec["new"]["s"]],
+                           "expected": want["kind"], "observed": o["kind"], "symmetric": o["sym"]}, rp)
+        else: run.traces += 1
+    run.exhaustive = True
